@@ -1,26 +1,153 @@
 package main
 
 import (
+	"fmt"
 	"go/ast"
 	"go/constant"
+	"go/token"
 	"go/types"
+	"regexp"
+	"sort"
 	"strconv"
 	"strings"
 )
 
 func init() { extractors["C07"] = extractC07 }
 
-// oneLine prints a node and collapses all white space.
-func (p *Pkg) oneLine(n ast.Node) string {
-	return strings.Join(strings.Fields(p.Src(n)), " ")
+var localMark = regexp.MustCompile(`_L[0-9]+_`)
+
+// renumber names the placeholders `normalise` put in for locally declared names _v0, _v1, … in
+// order of first occurrence in the fragment.
+func renumber(text string) string {
+	num := map[string]string{}
+	return localMark.ReplaceAllStringFunc(text, func(m string) string {
+		if _, ok := num[m]; !ok {
+			num[m] = fmt.Sprintf("_v%d", len(num))
+		}
+		return num[m]
+	})
 }
 
+func (p *Pkg) rawLine(n ast.Node) string { return strings.Join(strings.Fields(p.Src(n)), " ") }
+
+// oneLine prints a node and collapses all white space.
+func (p *Pkg) oneLine(n ast.Node) string { return renumber(p.rawLine(n)) }
+
+// stmts prints a statement list as one fragment.
 func (p *Pkg) stmts(list []ast.Stmt) string {
 	parts := make([]string, len(list))
 	for i, s := range list {
-		parts[i] = p.oneLine(s)
+		parts[i] = p.rawLine(s)
 	}
-	return strings.Join(parts, "; ")
+	return renumber(strings.Join(parts, "; "))
+}
+
+// normalise rewrites a function declaration in place so that its printed form does not depend on the
+// names chosen for things declared inside it: the receiver becomes _r, the parameters _p0, _p1, … by
+// position, locals become _v0, _v1, … in order of first occurrence in each printed fragment (identifiers are resolved with
+// go/types, so fields, package names, constants and functions keep their names), and the argument of every call of the builtin
+// panic is elided (the models depend on *that* a branch panics, not on the message). The returned
+// function undoes the rewrite. Source pinned in the Lean side-conditions is printed from this form.
+func (p *Pkg) normalise(fd *ast.FuncDecl) (restore func()) {
+	lo, hi := fd.Pos(), fd.End()
+	inside := func(pos token.Pos) bool { return pos != token.NoPos && lo <= pos && pos < hi }
+	decl := map[*ast.Ident]token.Pos{}
+	// symbolic variables of type switches have no entry in Defs; their uses resolve to implicit
+	// per-clause objects positioned at the symbolic identifier
+	ast.Inspect(fd, func(n ast.Node) bool {
+		if ts, ok := n.(*ast.TypeSwitchStmt); ok {
+			if as, ok := ts.Assign.(*ast.AssignStmt); ok && len(as.Lhs) == 1 {
+				if id, ok := as.Lhs[0].(*ast.Ident); ok {
+					decl[id] = id.Pos()
+				}
+			}
+		}
+		return true
+	})
+	ast.Inspect(fd, func(n ast.Node) bool {
+		id, ok := n.(*ast.Ident)
+		if !ok || id == fd.Name || id.Name == "_" {
+			return true
+		}
+		if _, done := decl[id]; done {
+			return true
+		}
+		if obj := p.Info.Defs[id]; obj != nil {
+			if inside(obj.Pos()) {
+				decl[id] = obj.Pos()
+			}
+		} else if obj := p.Info.Uses[id]; obj != nil && inside(obj.Pos()) {
+			decl[id] = obj.Pos()
+		}
+		return true
+	})
+	var poss []token.Pos
+	seen := map[token.Pos]bool{}
+	for _, pos := range decl {
+		if !seen[pos] {
+			seen[pos] = true
+			poss = append(poss, pos)
+		}
+	}
+	sort.Slice(poss, func(i, j int) bool { return poss[i] < poss[j] })
+	var recvPos token.Pos
+	if fd.Recv != nil && len(fd.Recv.List) == 1 && len(fd.Recv.List[0].Names) == 1 {
+		recvPos = fd.Recv.List[0].Names[0].Pos()
+	}
+	names := map[token.Pos]string{}
+	paramName := map[token.Pos]string{} // parameters keep their position: _p0, _p1, …
+	if fd.Type.Params != nil {
+		i := 0
+		for _, f := range fd.Type.Params.List {
+			for _, n := range f.Names {
+				paramName[n.Pos()] = fmt.Sprintf("_p%d", i)
+				i++
+			}
+		}
+	}
+	for _, pos := range poss {
+		if pos == recvPos {
+			names[pos] = "_r"
+		} else if pn, ok := paramName[pos]; ok {
+			names[pos] = pn
+		} else {
+			names[pos] = fmt.Sprintf("_L%d_", int(pos)) // numbered per printed fragment by oneLine
+		}
+	}
+	type savedName struct {
+		id   *ast.Ident
+		name string
+	}
+	type savedArgs struct {
+		c    *ast.CallExpr
+		args []ast.Expr
+	}
+	var sn []savedName
+	var sa []savedArgs
+	for id, pos := range decl {
+		sn = append(sn, savedName{id, id.Name})
+		id.Name = names[pos]
+	}
+	ast.Inspect(fd, func(n ast.Node) bool {
+		if c, ok := n.(*ast.CallExpr); ok {
+			if f, ok := c.Fun.(*ast.Ident); ok && f.Name == "panic" {
+				if _, isBuiltin := p.Info.Uses[f].(*types.Builtin); isBuiltin {
+					sa = append(sa, savedArgs{c, c.Args})
+					c.Args = []ast.Expr{&ast.Ident{Name: "..."}}
+					return false
+				}
+			}
+		}
+		return true
+	})
+	return func() {
+		for _, x := range sn {
+			x.id.Name = x.name
+		}
+		for _, x := range sa {
+			x.c.Args = x.args
+		}
+	}
 }
 
 // typeSwitchTable lists the clauses of the first type switch of a function as
@@ -43,6 +170,7 @@ func (p *Pkg) typeSwitchTable(o *Out, recv, name string) (keys, bodies []string)
 		o.problem("%s.%s: no type switch found", recv, name)
 		return nil, nil
 	}
+	defer p.normalise(fd)()
 	for _, c := range ts.Body.List {
 		cc := c.(*ast.CaseClause)
 		key := "default"
@@ -78,6 +206,7 @@ func (p *Pkg) bodySrc(o *Out, recv, name string) string {
 		o.problem("function %s.%s not found", recv, name)
 		return "?"
 	}
+	defer p.normalise(fd)()
 	return p.stmts(fd.Body.List)
 }
 
@@ -178,7 +307,7 @@ func extractC07(repo string, o *Out) {
 	// error code
 	errnoSrc := p.bodySrc(o, "Packet", "Errno")
 	o.str("errnoSrc", errnoSrc, "packet/packet.go Errno")
-	o.bool("errnoFromBody", strings.Contains(errnoSrc, "m.Body_.(int64)") && !strings.Contains(errnoSrc, "m.Cmd"),
+	o.bool("errnoFromBody", strings.Contains(errnoSrc, "_r.Body_.(int64)") && !strings.Contains(errnoSrc, "_r.Cmd"),
 		"packet/packet.go Errno reads the int64 body (and not the command)")
 	o.str("setErrnoSrc", p.bodySrc(o, "Packet", "SetErrno"), "packet/packet.go SetErrno")
 
@@ -189,7 +318,8 @@ func extractC07(repo string, o *Out) {
 	o.str("refuseSrc", p.bodySrc(o, "Packet", "Refuse"), "packet/packet.go Refuse")
 	o.str("refuseWithSrc", p.bodySrc(o, "Packet", "RefuseWith"), "packet/packet.go RefuseWith")
 
-	// receiver: the tail of unmarshalPacketBody (error flag -> varint -> SetBody) and the codecs' guard
+	// receiver: the tail of unmarshalPacketBody (error flag -> varint -> SetBody). When the codecs call
+	// it (their body guard) is the codec model's business (C01: bodyStepOnFlags).
 	c, err := load(repo, "codec")
 	if err != nil {
 		o.problem("load codec: %v", err)
@@ -199,6 +329,7 @@ func extractC07(repo string, o *Out) {
 	if fd := c.Func("", "unmarshalPacketBody"); fd == nil || fd.Body == nil {
 		o.problem("func unmarshalPacketBody not found")
 	} else {
+		restore := c.normalise(fd)
 		// the last `if` of the body is the error-flag branch
 		for i := len(fd.Body.List) - 1; i >= 0; i-- {
 			if is, ok := fd.Body.List[i].(*ast.IfStmt); ok {
@@ -206,19 +337,7 @@ func extractC07(repo string, o *Out) {
 				break
 			}
 		}
+		restore()
 	}
 	o.str("unmarshalErrBranch", tail, "codec/marshal.go unmarshalPacketBody: the branch that turns the body into the error code")
-	for _, cd := range []string{"codecV1", "codecV2"} {
-		guard := "?"
-		if fd := c.Func(cd, "UnmarshalPacket"); fd == nil || fd.Body == nil {
-			o.problem("method %s.UnmarshalPacket not found", cd)
-		} else {
-			for _, s := range fd.Body.List {
-				if is, ok := s.(*ast.IfStmt); ok && len(c.Calls(is, "unmarshalPacketBody")) == 1 {
-					guard = c.oneLine(is)
-				}
-			}
-		}
-		o.str(cd+"BodyGuard", guard, "codec "+cd+".UnmarshalPacket: when the body is handed to unmarshalPacketBody")
-	}
 }
